@@ -391,6 +391,12 @@ fn build_stepwise(x: &mut Xot, d: &ADoc, rng: &mut Rng, cons_off: bool, stats: &
                         log.push(format!("append_namespace_node(#{}, new_namespace_node({:?},{:?}))", i, p, u));
                         let nn = x.new_namespace_node(pid, uid);
                         x.append_namespace_node(h, nn).map_err(|e| format!("append_namespace_node: {:?}", e))?;
+                        if rng.pct(15) {
+                            // the same call again, with the node that is in place now: nothing may change
+                            log.push("  (repeated with the same node)".into());
+                            x.append_namespace_node(h, nn).map_err(|e| format!("append_namespace_node, repeated: {:?}", e))?;
+                            stats.inc("probe/c20_node_style_call_repeated");
+                        }
                     }
                 }
                 decl_done[i] += 1;
@@ -430,6 +436,11 @@ fn build_stepwise(x: &mut Xot, d: &ADoc, rng: &mut Rng, cons_off: bool, stats: &
                         log.push(format!("append_attribute_node(#{}, new_attribute_node({:?},{:?}))", i, nm, val));
                         let an = x.new_attribute_node(nid, val.clone());
                         x.append_attribute_node(h, an).map_err(|e| format!("append_attribute_node: {:?}", e))?;
+                        if rng.pct(15) {
+                            log.push("  (repeated with the same node)".into());
+                            x.append_attribute_node(h, an).map_err(|e| format!("append_attribute_node, repeated: {:?}", e))?;
+                            stats.inc("probe/c20_node_style_call_repeated");
+                        }
                     }
                 }
                 attr_done[i] += 1;
@@ -489,6 +500,51 @@ fn run_inner(r: &C20Replay, stats: &mut Stats, sample: Option<&mut Vec<String>>)
         Ok(n) => n,
         Err(e) => return Some(v("routes-differ", format!("rendering {:?} of the abstract document does not parse: {:?}", text, e))),
     };
+    // (a') the same rendering as bytes in another encoding, through parse_bytes
+    {
+        let mut erng = Rng::new(r.cdata_seed ^ 0xe7c0);
+        let latin1_ok = text.chars().all(|c| (c as u32) <= 0xFF);
+        let (label, bytes): (&str, Vec<u8>) = match erng.below(6) {
+            0 => ("UTF-8", text.as_bytes().to_vec()),
+            1 => {
+                let mut b = vec![0xEF, 0xBB, 0xBF];
+                b.extend_from_slice(text.as_bytes());
+                ("UTF-8 with BOM", b)
+            }
+            2 => {
+                let mut b = vec![0xFF, 0xFE];
+                for u in text.encode_utf16() {
+                    b.extend_from_slice(&u.to_le_bytes());
+                }
+                ("UTF-16LE with BOM", b)
+            }
+            3 => {
+                let mut b = vec![0xFE, 0xFF];
+                for u in text.encode_utf16() {
+                    b.extend_from_slice(&u.to_be_bytes());
+                }
+                ("UTF-16BE with BOM", b)
+            }
+            4 if latin1_ok => {
+                let s = format!("<?xml version=\"1.0\" encoding=\"ISO-8859-1\"?>{}", text);
+                ("ISO-8859-1, declared", s.chars().map(|c| c as u32 as u8).collect())
+            }
+            _ => {
+                let s = format!("<?xml version=\"1.0\" encoding=\"UTF-8\"?>{}", text);
+                ("UTF-8, declared", s.into_bytes())
+            }
+        };
+        stats.inc(&format!("probe/c20_parse_bytes/{}", label));
+        match real_call(|| x.parse_bytes(&bytes)) {
+            Ok(Ok(n)) => match canon_of(&x, n) {
+                Ok(s) if s == expect => {}
+                Ok(s) => return Some(v("routes-differ", format!("route parse_bytes ({}) gives {} but the abstract document is {}", label, s, expect))),
+                Err(viol) => return Some(v("routes-differ", format!("route parse_bytes ({}): {}", label, viol.msg))),
+            },
+            Ok(Err(e)) => return Some(v("routes-differ", format!("the rendering {:?} parses as a string but not as {} bytes: {:?}", text, label, e))),
+            Err(_) => return Some(v("routes-differ", format!("parse_bytes of the {} rendering unwinds", label))),
+        }
+    }
     // (b) fixed:: structure
     let mut split_coin = Rng::new(r.cdata_seed ^ 0x5a5a);
     let cons_off = r.cons_off;
